@@ -1,7 +1,7 @@
 (* C15 — Header encode/decode round-trips and the Internet checksum matches RFC 1071.
    This file contains only the property theorems; each is closed by [exact] of a lemma from
    Proofs/{ChecksumP,TcpOptionsP,HdrP}.v and followed by Print Assumptions.
-   Models: Model/Checksum.v, TcpOptions.v, HdrIP.v, HdrTransport.v, HdrLink.v (Go code quoted there);
+   Models: Model/Checksum.v, TcpOptions.v, HdrIP.v, HdrTransport.v, HdrLink.v, HdrDNS.v (Go code quoted there);
    specification vocabulary: Model/Bytes.v ([bits], the independent bit-level reader),
    Model/HdrRfc.v (each header as its RFC draws it), [rfc1071_sum], [item_bytes].
 
@@ -10,19 +10,24 @@
        buffer up to 64 KiB and every initial value": C15_checksum_rfc1071, C15_checksum_value,
        C15_checksum_bound_refuted (the bound 131072 is exact), C15_combine, C15_pseudo_header,
        C15_checksum_chunks / C15_checksum_odd_chunk_refuted (view-by-view summation);
-   (b) "so a packet carrying the complemented sum always verifies": C15_checksum_verifies;
+   (b) "so a packet carrying the complemented sum always verifies": C15_checksum_verifies (any buffer,
+       any aligned field) and its instances C15_header_checksums_verify (IPv4 header checksum, UDP and
+       TCP CalculateChecksum with a pseudo-header partial sum);
    (c) "parsers of variable-length parts (TCP options) never read outside their input":
        C15_parseSynOptions_no_oob, C15_parseTCPOptions_no_oob (also: terminate);
    (d) "and recover every option an encoder produced": C15_encoders_wire_format, C15_sack_space,
        C15_padding, C15_parseSynOptions_recovers, C15_parseTCPOptions_recovers,
        C15_syn_options_roundtrip, C15_options_roundtrip;
-   (e) "reading the fields back from the encoded bytes returns the values that were encoded":
-       C15_<hdr>_roundtrip; the field domains are tight where stated: C15_<hdr>_outside_refuted;
-   (f) "the bytes match the RFC layout as read by an independent decoder": C15_<hdr>_layout (every
-       accessor = the bit-level reader, on every byte string) and C15_<hdr>_encode_layout. *)
+   (e) "reading the fields back from the encoded bytes returns the values that were encoded": first
+       conjunct of C15_<hdr> (under the boolean field domain wf_<hdr>; the domains are tight where they
+       restrict the Go types: C15_field_domains_tight_refuted), C15_dns_header, C15_dns_question;
+   (f) "the bytes match the RFC layout as read by an independent decoder": second conjunct of
+       C15_<hdr> (every accessor = the bit-level reader, on EVERY byte string long enough) and third
+       conjunct (the bytes Encode wrote, read by the bit-level reader, are the fields). *)
 From Coq Require Import ZArith Bool List.
 From NP Require Import Model.Bytes Model.Checksum Model.TcpOptions Model.HdrIP Model.HdrTransport
-  Model.HdrLink Model.HdrRfc Proofs.BytesP Proofs.ChecksumP Proofs.TcpOptionsP Proofs.HdrP.
+  Model.HdrLink Model.HdrRfc Model.HdrDNS Proofs.BytesP Proofs.ChecksumP Proofs.TcpOptionsP Proofs.HdrP
+  Proofs.HdrCkP Proofs.HdrDNSP.
 Import ListNotations.
 Open Scope Z_scope.
 
@@ -153,151 +158,142 @@ Theorem C15_options_roundtrip : forall tsOk tsVal tsEcr sackPermitted blocks buf
 Proof. exact parse_recovers_options. Qed.
 Print Assumptions C15_options_roundtrip.
 
-(* ------------------------------------------------------------------ (e), (f): IPv4 *)
-Theorem C15_ipv4_roundtrip : forall b f, (20 <= length b)%nat -> wf_ipv4 f = true ->
-  exists b', ipv4_encode b f = Some b' /\ ipv4_decode b' = Some f /\
-             length b' = length b /\ skipn 20 b' = skipn 20 b /\ ipVersion b' = 4.
-Proof. exact ipv4_roundtrip. Qed.
-Print Assumptions C15_ipv4_roundtrip.
+(* ------------------------------------------------------------------ (b): header instances *)
+Theorem C15_header_checksums_verify :
+  (forall b hl b0 c b1,
+     bytes_ok b -> ipv4_headerLength b = Some hl -> 12 <= hl -> (Z.to_nat hl <= length b)%nat ->
+     ipv4_setChecksum b 0 = Some b0 -> ipv4_calculateChecksum b0 = Some c ->
+     ipv4_setChecksum b0 (lnot16 c) = Some b1 -> ipv4_calculateChecksum b1 = Some 65535) /\
+  (forall b partialChecksum totalLen b0 c b1,
+     bytes_ok b -> is_u16 partialChecksum -> is_u16 totalLen ->
+     udp_setChecksum b 0 = Some b0 -> udp_calculateChecksum b0 partialChecksum totalLen = Some c ->
+     udp_setChecksum b0 (lnot16 c) = Some b1 ->
+     udp_calculateChecksum b1 partialChecksum totalLen = Some 65535) /\
+  (forall b d partialChecksum totalLen b0 c b1,
+     bytes_ok b -> is_u16 partialChecksum -> is_u16 totalLen ->
+     tcp_dataOffset b = Some d -> 18 <= d -> (Z.to_nat d <= length b)%nat ->
+     tcp_setChecksum b 0 = Some b0 -> tcp_calculateChecksum b0 partialChecksum totalLen = Some c ->
+     tcp_setChecksum b0 (lnot16 c) = Some b1 ->
+     tcp_calculateChecksum b1 partialChecksum totalLen = Some 65535).
+Proof. exact header_checksums_verify. Qed.
+Print Assumptions C15_header_checksums_verify.
 
-Theorem C15_ipv4_layout : forall b, bytes_ok b -> (20 <= length b)%nat ->
-  ipv4_decode b = Some (ipv4_rfc791 b).
-Proof. exact ipv4_rfc_layout. Qed.
-Print Assumptions C15_ipv4_layout.
+(* ------------------------------------------------------------------ (e), (f): one theorem per header:
+   round trip /\ accessors = RFC reader on every byte string /\ encoded bytes read by the RFC reader *)
+Theorem C15_ipv4 :
+  (forall b f, (20 <= length b)%nat -> wf_ipv4 f = true ->
+     exists b', ipv4_encode b f = Some b' /\ ipv4_decode b' = Some f /\
+                length b' = length b /\ skipn 20 b' = skipn 20 b /\ ipVersion b' = 4) /\
+  (forall b, bytes_ok b -> (20 <= length b)%nat -> ipv4_decode b = Some (ipv4_rfc791 b)) /\
+  (forall b f, bytes_ok b -> (20 <= length b)%nat -> wf_ipv4 f = true ->
+     exists b', ipv4_encode b f = Some b' /\ ipv4_rfc791 b' = f /\ ipv4_version_rfc b' = 4).
+Proof. exact ipv4_codec. Qed.
+Print Assumptions C15_ipv4.
 
-Theorem C15_ipv4_encode_layout : forall b f, bytes_ok b -> (20 <= length b)%nat -> wf_ipv4 f = true ->
-  exists b', ipv4_encode b f = Some b' /\ ipv4_rfc791 b' = f /\ ipv4_version_rfc b' = 4.
-Proof. exact ipv4_encode_rfc. Qed.
-Print Assumptions C15_ipv4_encode_layout.
+Theorem C15_ipv6 :
+  (forall b f, (40 <= length b)%nat -> wf_ipv6 f = true ->
+     exists b', ipv6_encode b f = Some b' /\ ipv6_decode b' = Some f /\
+                length b' = length b /\ skipn 40 b' = skipn 40 b /\ ipVersion b' = 6) /\
+  (forall b, bytes_ok b -> (40 <= length b)%nat -> ipv6_decode b = Some (ipv6_rfc2460 b)) /\
+  (forall b f, bytes_ok b -> (40 <= length b)%nat -> wf_ipv6 f = true ->
+     exists b', ipv6_encode b f = Some b' /\ ipv6_rfc2460 b' = f /\ ipv6_version_rfc b' = 6).
+Proof. exact ipv6_codec. Qed.
+Print Assumptions C15_ipv6.
 
-Theorem C15_ipv4_outside_refuted :
-  exists b f, (20 <= length b)%nat /\ ip4IHL f = 64 /\
-    obind (ipv4_encode b f) ipv4_headerLength = Some 0.
-Proof. exact ipv4_outside_refuted. Qed.
-Print Assumptions C15_ipv4_outside_refuted.
+Theorem C15_ipv6frag :
+  (forall b f, (8 <= length b)%nat -> wf_ipv6frag f = true ->
+     exists b', ipv6frag_encode b f = Some b' /\ ipv6frag_decode b' = Some f /\
+                length b' = length b /\ skipn 8 b' = skipn 8 b) /\
+  (forall b, bytes_ok b -> (8 <= length b)%nat -> ipv6frag_decode b = Some (ipv6frag_rfc2460 b)) /\
+  (forall b f, bytes_ok b -> (8 <= length b)%nat -> wf_ipv6frag f = true ->
+     exists b', ipv6frag_encode b f = Some b' /\ ipv6frag_rfc2460 b' = f).
+Proof. exact ipv6frag_codec. Qed.
+Print Assumptions C15_ipv6frag.
 
-(* ------------------------------------------------------------------ IPv6 *)
-Theorem C15_ipv6_roundtrip : forall b f, (40 <= length b)%nat -> wf_ipv6 f = true ->
-  exists b', ipv6_encode b f = Some b' /\ ipv6_decode b' = Some f /\
-             length b' = length b /\ skipn 40 b' = skipn 40 b /\ ipVersion b' = 6.
-Proof. exact ipv6_roundtrip. Qed.
-Print Assumptions C15_ipv6_roundtrip.
+Theorem C15_tcp :
+  (forall b t, (20 <= length b)%nat -> wf_tcp t = true ->
+     exists b', tcp_encode b t = Some b' /\ tcp_decode b' = Some t /\
+                length b' = length b /\ skipn 20 b' = skipn 20 b) /\
+  (forall b, bytes_ok b -> (20 <= length b)%nat -> tcp_decode b = Some (tcp_rfc793 b)) /\
+  (forall b t, bytes_ok b -> (20 <= length b)%nat -> wf_tcp t = true ->
+     exists b', tcp_encode b t = Some b' /\ tcp_rfc793 b' = t).
+Proof. exact tcp_codec. Qed.
+Print Assumptions C15_tcp.
 
-Theorem C15_ipv6_layout : forall b, bytes_ok b -> (40 <= length b)%nat ->
-  ipv6_decode b = Some (ipv6_rfc2460 b).
-Proof. exact ipv6_rfc_layout. Qed.
-Print Assumptions C15_ipv6_layout.
+Theorem C15_udp :
+  (forall b u, (8 <= length b)%nat -> wf_udp u = true ->
+     exists b', udp_encode b u = Some b' /\ udp_decode b' = Some u /\
+                length b' = length b /\ skipn 8 b' = skipn 8 b) /\
+  (forall b, bytes_ok b -> (8 <= length b)%nat -> udp_decode b = Some (udp_rfc768 b)) /\
+  (forall b u, bytes_ok b -> (8 <= length b)%nat -> wf_udp u = true ->
+     exists b', udp_encode b u = Some b' /\ udp_rfc768 b' = u).
+Proof. exact udp_codec. Qed.
+Print Assumptions C15_udp.
 
-Theorem C15_ipv6_encode_layout : forall b f, bytes_ok b -> (40 <= length b)%nat -> wf_ipv6 f = true ->
-  exists b', ipv6_encode b f = Some b' /\ ipv6_rfc2460 b' = f /\ ipv6_version_rfc b' = 6.
-Proof. exact ipv6_encode_rfc. Qed.
-Print Assumptions C15_ipv6_encode_layout.
+(* ICMPv4 and ICMPv6 share the model (type, code, checksum; the library has setters, no Encode) *)
+Theorem C15_icmp :
+  (forall b f, (4 <= length b)%nat -> wf_icmp f = true ->
+     exists b', icmp_encode b f = Some b' /\ icmp_decode b' = Some f /\
+                length b' = length b /\ skipn 4 b' = skipn 4 b) /\
+  (forall b, bytes_ok b -> (4 <= length b)%nat -> icmp_decode b = Some (icmp_rfc792 b)) /\
+  (forall b f, bytes_ok b -> (4 <= length b)%nat -> wf_icmp f = true ->
+     exists b', icmp_encode b f = Some b' /\ icmp_rfc792 b' = f).
+Proof. exact icmp_codec. Qed.
+Print Assumptions C15_icmp.
 
-(* ------------------------------------------------------------------ IPv6 fragment header *)
-Theorem C15_ipv6frag_roundtrip : forall b f, (8 <= length b)%nat -> wf_ipv6frag f = true ->
-  exists b', ipv6frag_encode b f = Some b' /\ ipv6frag_decode b' = Some f /\
-             length b' = length b /\ skipn 8 b' = skipn 8 b.
-Proof. exact ipv6frag_roundtrip. Qed.
-Print Assumptions C15_ipv6frag_roundtrip.
+Theorem C15_eth :
+  (forall b e, (14 <= length b)%nat -> wf_eth e = true ->
+     exists b', eth_encode b e = Some b' /\ eth_decode b' = Some e /\
+                length b' = length b /\ skipn 14 b' = skipn 14 b) /\
+  (forall b, bytes_ok b -> (14 <= length b)%nat -> eth_decode b = Some (eth_rfc894 b)) /\
+  (forall b e, bytes_ok b -> (14 <= length b)%nat -> wf_eth e = true ->
+     exists b', eth_encode b e = Some b' /\ eth_rfc894 b' = e).
+Proof. exact eth_codec. Qed.
+Print Assumptions C15_eth.
 
-Theorem C15_ipv6frag_layout : forall b, bytes_ok b -> (8 <= length b)%nat ->
-  ipv6frag_decode b = Some (ipv6frag_rfc2460 b).
-Proof. exact ipv6frag_rfc_layout. Qed.
-Print Assumptions C15_ipv6frag_layout.
+Theorem C15_arp :
+  (forall a f, (28 <= length a)%nat -> wf_arp f = true ->
+     exists a', arp_encode a f = Some a' /\ arp_decode a' = Some f /\ arp_isValid a' = Some true /\
+                length a' = length a /\ skipn 28 a' = skipn 28 a) /\
+  (forall a, bytes_ok a -> (28 <= length a)%nat ->
+     arp_decode a = Some (arp_rfc826 a) /\
+     arp_isValid a = Some (match arp_fixed_rfc826 a with
+                           | [h; p; hl; pl] => (h =? 1) && (p =? 2048) && (hl =? 6) && (pl =? 4)
+                           | _ => false end)).
+Proof. exact arp_codec. Qed.
+Print Assumptions C15_arp.
 
-Theorem C15_ipv6frag_encode_layout : forall b f, bytes_ok b -> (8 <= length b)%nat -> wf_ipv6frag f = true ->
-  exists b', ipv6frag_encode b f = Some b' /\ ipv6frag_rfc2460 b' = f.
-Proof. exact ipv6frag_encode_rfc. Qed.
-Print Assumptions C15_ipv6frag_encode_layout.
+(* outside the stated field domains Encode loses information (so the domains are part of the
+   statement, not a weakness of the proof): IHL = 64, fragment offset 8192, data offset 64 read back 0 *)
+Theorem C15_field_domains_tight_refuted :
+  (exists b f, (20 <= length b)%nat /\ ip4IHL f = 64 /\
+     obind (ipv4_encode b f) ipv4_headerLength = Some 0) /\
+  (exists b f, (8 <= length b)%nat /\ fragFragmentOffset f = 8192 /\
+     obind (ipv6frag_encode b f) ipv6frag_fragmentOffset = Some 0) /\
+  (exists b t, (20 <= length b)%nat /\ tcpDataOffset t = 64 /\
+     obind (tcp_encode b t) tcp_dataOffset = Some 0).
+Proof. exact field_domains_tight_refuted. Qed.
+Print Assumptions C15_field_domains_tight_refuted.
 
-Theorem C15_ipv6frag_outside_refuted :
-  exists b f, (8 <= length b)%nat /\ fragFragmentOffset f = 8192 /\
-    obind (ipv6frag_encode b f) ipv6frag_fragmentOffset = Some 0.
-Proof. exact ipv6frag_outside_refuted. Qed.
-Print Assumptions C15_ipv6frag_outside_refuted.
+(* ------------------------------------------------------------------ DNS query builder *)
+Theorem C15_dns_header : forall d id qd an ns qa,
+  (12 <= length d)%nat -> 0 <= id < 65536 -> 0 <= qd < 65536 -> 0 <= an < 65536 -> 0 <= ns < 65536 ->
+  0 <= qa < 65536 ->
+  exists d', obind (dns_setheader d id) (fun d1 => dns_setCount d1 qd an ns qa) = Some d' /\
+    dns_getId d' = Some id /\ dns_getQDCount d' = Some qd /\ dns_getANCount d' = Some an /\
+    dns_getNSCount d' = Some ns /\ dns_getARCount d' = Some qa /\
+    get16 d' 2 = Some 256 /\ skipn 12 d' = skipn 12 d.
+Proof. exact dns_header_roundtrip. Qed.
+Print Assumptions C15_dns_header.
 
-(* ------------------------------------------------------------------ TCP *)
-Theorem C15_tcp_roundtrip : forall b t, (20 <= length b)%nat -> wf_tcp t = true ->
-  exists b', tcp_encode b t = Some b' /\ tcp_decode b' = Some t /\
-             length b' = length b /\ skipn 20 b' = skipn 20 b.
-Proof. exact tcp_roundtrip. Qed.
-Print Assumptions C15_tcp_roundtrip.
-
-Theorem C15_tcp_layout : forall b, bytes_ok b -> (20 <= length b)%nat ->
-  tcp_decode b = Some (tcp_rfc793 b).
-Proof. exact tcp_rfc_layout. Qed.
-Print Assumptions C15_tcp_layout.
-
-Theorem C15_tcp_encode_layout : forall b t, bytes_ok b -> (20 <= length b)%nat -> wf_tcp t = true ->
-  exists b', tcp_encode b t = Some b' /\ tcp_rfc793 b' = t.
-Proof. exact tcp_encode_rfc. Qed.
-Print Assumptions C15_tcp_encode_layout.
-
-Theorem C15_tcp_outside_refuted :
-  exists b t, (20 <= length b)%nat /\ tcpDataOffset t = 64 /\
-    obind (tcp_encode b t) tcp_dataOffset = Some 0.
-Proof. exact tcp_outside_refuted. Qed.
-Print Assumptions C15_tcp_outside_refuted.
-
-(* ------------------------------------------------------------------ UDP *)
-Theorem C15_udp_roundtrip : forall b u, (8 <= length b)%nat -> wf_udp u = true ->
-  exists b', udp_encode b u = Some b' /\ udp_decode b' = Some u /\
-             length b' = length b /\ skipn 8 b' = skipn 8 b.
-Proof. exact udp_roundtrip. Qed.
-Print Assumptions C15_udp_roundtrip.
-
-Theorem C15_udp_layout : forall b, bytes_ok b -> (8 <= length b)%nat -> udp_decode b = Some (udp_rfc768 b).
-Proof. exact udp_rfc_layout. Qed.
-Print Assumptions C15_udp_layout.
-
-Theorem C15_udp_encode_layout : forall b u, bytes_ok b -> (8 <= length b)%nat -> wf_udp u = true ->
-  exists b', udp_encode b u = Some b' /\ udp_rfc768 b' = u.
-Proof. exact udp_encode_rfc. Qed.
-Print Assumptions C15_udp_encode_layout.
-
-(* ------------------------------------------------------------------ ICMPv4 / ICMPv6 *)
-Theorem C15_icmp_roundtrip : forall b f, (4 <= length b)%nat -> wf_icmp f = true ->
-  exists b', icmp_encode b f = Some b' /\ icmp_decode b' = Some f /\
-             length b' = length b /\ skipn 4 b' = skipn 4 b.
-Proof. exact icmp_roundtrip. Qed.
-Print Assumptions C15_icmp_roundtrip.
-
-Theorem C15_icmp_layout : forall b, bytes_ok b -> (4 <= length b)%nat -> icmp_decode b = Some (icmp_rfc792 b).
-Proof. exact icmp_rfc_layout. Qed.
-Print Assumptions C15_icmp_layout.
-
-Theorem C15_icmp_encode_layout : forall b f, bytes_ok b -> (4 <= length b)%nat -> wf_icmp f = true ->
-  exists b', icmp_encode b f = Some b' /\ icmp_rfc792 b' = f.
-Proof. exact icmp_encode_rfc. Qed.
-Print Assumptions C15_icmp_encode_layout.
-
-(* ------------------------------------------------------------------ Ethernet *)
-Theorem C15_eth_roundtrip : forall b e, (14 <= length b)%nat -> wf_eth e = true ->
-  exists b', eth_encode b e = Some b' /\ eth_decode b' = Some e /\
-             length b' = length b /\ skipn 14 b' = skipn 14 b.
-Proof. exact eth_roundtrip. Qed.
-Print Assumptions C15_eth_roundtrip.
-
-Theorem C15_eth_layout : forall b, bytes_ok b -> (14 <= length b)%nat -> eth_decode b = Some (eth_rfc894 b).
-Proof. exact eth_rfc_layout. Qed.
-Print Assumptions C15_eth_layout.
-
-Theorem C15_eth_encode_layout : forall b e, bytes_ok b -> (14 <= length b)%nat -> wf_eth e = true ->
-  exists b', eth_encode b e = Some b' /\ eth_rfc894 b' = e.
-Proof. exact eth_encode_rfc. Qed.
-Print Assumptions C15_eth_encode_layout.
-
-(* ------------------------------------------------------------------ ARP *)
-Theorem C15_arp_roundtrip : forall a f, (28 <= length a)%nat -> wf_arp f = true ->
-  exists a', arp_encode a f = Some a' /\ arp_decode a' = Some f /\ arp_isValid a' = Some true /\
-             length a' = length a /\ skipn 28 a' = skipn 28 a.
-Proof. exact arp_roundtrip. Qed.
-Print Assumptions C15_arp_roundtrip.
-
-Theorem C15_arp_layout : forall a, bytes_ok a -> (28 <= length a)%nat ->
-  arp_decode a = Some (arp_rfc826 a) /\
-  arp_isValid a = Some (match arp_fixed_rfc826 a with
-                        | [h; p; hl; pl] => (h =? 1) && (p =? 2048) && (hl =? 6) && (pl =? 4)
-                        | _ => false end).
-Proof. exact arp_rfc_layout. Qed.
-Print Assumptions C15_arp_layout.
+(* SetQuestion appends the RFC 1035 QNAME/QTYPE/QCLASS; GetDomainLen returns the QNAME length and an
+   independent RFC 1035 label reader recovers the labels — for labels of 1..63 bytes *)
+Theorem C15_dns_question : forall h labels qtype qclass,
+  length h = 12%nat -> Forall wf_label labels -> 0 <= qtype < 65536 -> 0 <= qclass < 65536 ->
+  let d := dns_setQuestion h labels qtype qclass in
+  dns_getDomainLen d = DOk (Z.of_nat (length (dns_getDomain labels))) /\
+  firstn 12 d = h /\
+  exists rest, rfc1035_labels (S (length labels)) (skipn 12 d) = Some (labels, rest) /\
+    get16 rest 0 = Some qtype /\ get16 rest 2 = Some qclass /\ length rest = 4%nat.
+Proof. exact dns_question_roundtrip. Qed.
+Print Assumptions C15_dns_question.
